@@ -8,3 +8,4 @@ for prop in "$@"; do
   echo "[$prop] $out"
 done
 cd /repo && git checkout -q -- . && git status --short | head -3
+/verif/tools/regen_generated.sh
